@@ -100,7 +100,7 @@ CHECKS = {
     "C16": {
         "level": "model_checking",
         "text": "EngineProto.tla (PlusCal: engine mutex, session mutex, writer token, engine transaction, session start reservation, Begin/Commit/Abort/Close and the "
-                "session calls with store failures and cancelled waits) is model checked exhaustively for 2 actors x 2 calls (557k states): token conservation, never "
+                "session calls with store failures and cancelled waits) is model checked exhaustively for 2 actors x 2 calls (1.34 M states with the stream and session-end actions): token conservation, never "
                 "'semaphore full', transaction implies held token, deadlock freedom; its deadlock counterexample for lungo's former lock order is replayed on real "
                 "goroutines as a forced interleaving. Fault scenarios (short contexts, failing stores, session commit/abort/end, panicking callbacks, sessions ended "
                 "while StartTransaction waits, collection operations with a session context racing AbortTransaction, streams, Close at random points) run under the "
